@@ -234,7 +234,52 @@ def c03_repair(ctx):
                     ctx.fail(o, s, "process_query executes a query without checking ComputingMode::Execute (first demand)")
 
 
+def c03_marker(ctx):
+    """The persisted backward-projection marker is honoured only in the epoch it was recorded in."""
+    prog = ctx.prog
+    o = ctx.ob("C03.f", "pending-backward-projection/epoch-equality-at-both-sites", "K4+K8",
+               "backward projection is entered only when the stored marker equals the caller's epoch (fast path) and the in-lock double check is its exact negation")
+    want = (("Snapshot::fast_path", r"Option::<[^>]*>::is_some_and$", "eq"),
+            ("Snapshot::get_backward_projection_lock_guard", r"Option::<[^>]*>::is_none_or$", "ne"))
+    n = 0
+    for fn, combinator, rel in want:
+        b = ctx.touch(prog.coroutine_of(fn))
+        cs = [s for s in b.calls_to(combinator) if any(x.kind == "call" and (x.callee() or "").endswith("::pending_backward_projection") for x in df.origins_of_operand(b, s.node["args"][0]))]
+        n += len(cs)
+        if len(cs) != 1:
+            ctx.fail(o, Site(b, 0, 0), "anchor missing: test of pending_backward_projection() in %s" % fn)
+            continue
+        # the predicate closure
+        clo = [x for x in df.origins_of_operand(b, cs[0].node["args"][1]) if x.kind == "agg" and x.site.node["rv"].get("ak") == "closure"]
+        if len(clo) != 1 or clo[0].site.node["rv"]["def"] not in prog.bodies:
+            ctx.fail(o, cs[0], "anchor missing: predicate closure of %s" % fn)
+            continue
+        c = ctx.touch(prog.bodies[clo[0].site.node["rv"]["def"]])
+        cmps = [s for s in c.calls() if re.search(r"core::cmp::(PartialEq|PartialOrd)::(eq|ne|lt|le|gt|ge)$", s.node["fn"]["path"])]
+        n += len(cmps)
+        if len(cmps) != 1 or not cmps[0].node["fn"]["path"].endswith("PartialEq::" + rel):
+            ctx.fail(o, cmps[0] if cmps else Site(c, 0, 0), "%s compares the stored marker with the caller's epoch using `%s` instead of `%s`: a marker left over from an earlier session would "
+                     "trigger backward projection (and re-execute projection queries) in a session that changed nothing" % (
+                         fn, cmps[0].node["fn"]["path"].rsplit("::", 1)[-1] if cmps else "?", rel))
+            continue
+        da, db = df.Desc(c, cmps[0].node["args"][0], prog), df.Desc(c, cmps[0].node["args"][1], prog)
+        if not ((da.has("CallerInformation::timestamp") or db.has("CallerInformation::timestamp"))):
+            ctx.fail(o, cmps[0], "%s does not compare the marker with caller.timestamp()" % fn)
+        # the closure returns the comparison itself (not its negation)
+        if c.assigns(lambda st: st["rv"]["k"] == "un" and st["rv"]["op"] == "Not") or c.calls_to(r"ops::bit::Not::not$"):
+            ctx.fail(o, cmps[0], "the marker test of %s is negated" % fn)
+    o.sites = n
+    # the marker is written with the current epoch, and removed when the projection is done
+    o2 = ctx.ob("C03.f", "pending-backward-projection/written-with-current-epoch", "K5", "the marker stores the epoch of the recomputation that requested it")
+    b = ctx.touch(prog.coroutine_of("Snapshot::set_computed"))
+    ag = b.aggregates(r"database::PendingBackwardProjection$")
+    o2.sites = len(ag)
+    if len(ag) != 1 or not all(x.kind == "param" for x in df.origins_of_operand(b, ag[0].node["rv"]["ops"][0])):
+        ctx.fail(o2, Site(b, 0, 0), "set_computed does not stamp the marker with its current_timestamp argument")
+
+
 def run(ctx):
+    ctx.run_clause("C03.f", c03_marker)
     ctx.run_clause("C03.a", c03_inputs)
     ctx.run_clause("C03.b", c03_propagation)
     ctx.run_clause("C03.d", c03_repair)
